@@ -84,6 +84,12 @@ def _const_value(j):
         return ct.ListType([_const_value(x) for x in j["v"]])
     if t == "map":
         return ct.MapType({_const_value(k): _const_value(v) for k, v in j["v"]})
+    if t == "timestamp":
+        import datetime
+        return ct.TimestampType(datetime.datetime.fromtimestamp(0, datetime.timezone.utc) + datetime.timedelta(microseconds=j["us"]))
+    if t == "duration":
+        import datetime
+        return ct.DurationType(datetime.timedelta(microseconds=j["us"]))
     raise ValueError(j)
 
 
